@@ -137,7 +137,13 @@ func EncodeResponse(p Proto, streaming bool, codec string, o EncOpts, msgs [][]b
 				} else {
 					status = map[uint32]int{1: 408, 4: 408, 9: 412, 11: 400, 12: 404}[e.Code]
 				}
-				return status, header, connectErrorJSON(e), nil
+				body := connectErrorJSON(e)
+				if o.CompressMsg != nil && o.CompressMsg(0) && o.Encoding != "" && o.Compress != nil {
+					// error bodies may be compressed like any other body
+					body = o.Compress(o.Encoding, body)
+					header["Content-Encoding"] = []string{o.Encoding}
+				}
+				return status, header, body, nil
 			}
 			var data []byte
 			if len(msgs) > 0 {
